@@ -16,11 +16,33 @@ use std::sync::atomic::{AtomicI32, AtomicU32, AtomicU64, Ordering};
 use std::sync::{Arc, Mutex};
 
 const APEX: &[u8] = b"\x07example\x00";
-const NAMES: [&[u8]; 5] = [b"a", b"b", b"c", b"d", b"e"];
+/// Owner names as label paths, leftmost label first: a, b.a, c.b.a, d, e.d (below the apex), so
+/// that versioned items sit one, two and three levels below the apex.
+const NAMES: [&[&[u8]]; 5] = [&[b"a"], &[b"b", b"a"], &[b"c", b"b", b"a"], &[b"d"], &[b"e", b"d"]];
 const ABANDON_BASE: u32 = 1 << 30;
 
 fn name_of(i: usize) -> Vec<u8> {
-    nm(&[NAMES[i]], APEX)
+    nm(NAMES[i], APEX)
+}
+
+/// An address record every ancestor of a written name holds, so that no name on the way is
+/// without RRsets of its own (the write path marks such names NXDOMAIN, a C08 finding that would
+/// otherwise hide the names below from queries).
+fn anchor_rrset() -> SharedRrset {
+    let mut r = Rrset::new(Rtype::A, domain::base::Ttl::from_secs(5));
+    r.push_data(sdata(T_A, &[192, 0, 2, 99]));
+    SharedRrset::new(r)
+}
+
+/// The write node for name `n`, created label by label from the version's root node.
+async fn descend(root: &dyn WritableZoneNode, n: usize) -> Result<Box<dyn WritableZoneNode>, std::io::Error> {
+    let path = NAMES[n];
+    let mut node = root.update_child(Label::from_slice(path[path.len() - 1]).unwrap()).await?;
+    for l in path[..path.len() - 1].iter().rev() {
+        node.update_rrset(anchor_rrset()).await?;
+        node = node.update_child(Label::from_slice(l).unwrap()).await?;
+    }
+    Ok(node)
 }
 
 fn txt_rdata(stamp: u32) -> Vec<u8> {
@@ -132,6 +154,7 @@ fn history(c: &mut Ctx, rt: &tokio::runtime::Runtime, fam: &str, idx: u64) {
     let mut init: Content = BTreeMap::new();
     let mut b = ZoneBuilder::new(sname(APEX), Class::IN);
     for i in 0..NAMES.len() {
+        b.insert_rrset(&sname(&name_of(i)), anchor_rrset()).unwrap();
         if rng.bool() {
             init.insert(i, 0);
             b.insert_rrset(&sname(&name_of(i)), txt_rrset(0)).unwrap();
@@ -211,7 +234,7 @@ fn history(c: &mut Ctx, rt: &tokio::runtime::Runtime, fam: &str, idx: u64) {
                     if let Some((_, node, work)) = &mut writer {
                         let st = next_stamp;
                         next_stamp += 1;
-                        let ch = rt.block_on(node.update_child(Label::from_slice(NAMES[n]).unwrap())).map_err(|e| ("writer:update_child".to_string(), e.to_string()))?;
+                        let ch = rt.block_on(descend(node.as_ref(), n)).map_err(|e| ("writer:update_child".to_string(), e.to_string()))?;
                         rt.block_on(ch.update_rrset(txt_rrset(st))).map_err(|e| ("writer:update_rrset".to_string(), e.to_string()))?;
                         work.insert(n, st);
                         trace.push(format!("W update {} = v{}", n, st));
@@ -219,7 +242,7 @@ fn history(c: &mut Ctx, rt: &tokio::runtime::Runtime, fam: &str, idx: u64) {
                 }
                 Op::WRemove(n) => {
                     if let Some((_, node, work)) = &mut writer {
-                        let ch = rt.block_on(node.update_child(Label::from_slice(NAMES[n]).unwrap())).map_err(|e| ("writer:update_child".to_string(), e.to_string()))?;
+                        let ch = rt.block_on(descend(node.as_ref(), n)).map_err(|e| ("writer:update_child".to_string(), e.to_string()))?;
                         rt.block_on(ch.remove_rrset(Rtype::TXT)).map_err(|e| ("writer:remove_rrset".to_string(), e.to_string()))?;
                         work.remove(&n);
                         trace.push(format!("W remove {}", n));
@@ -350,7 +373,7 @@ async fn writer_task(sh: Arc<Shared>, id: u32, rounds: u32, seed: u64) {
         let mut order: Vec<usize> = (0..NAMES.len()).collect();
         rng.shuffle(&mut order);
         for &n in &order {
-            let ch = node.update_child(Label::from_slice(NAMES[n]).unwrap()).await.unwrap();
+            let ch = descend(node.as_ref(), n).await.unwrap();
             if rng.chance(1, 4) {
                 let _ = ch.remove_rrset(Rtype::TXT).await;
                 tokio::task::yield_now().await;
@@ -440,6 +463,7 @@ fn reader_thread(sh: Arc<Shared>, id: u32, seed: u64) {
 fn stress(c: &mut Ctx, round: u64, readers: u32, writers: u32, rounds: u32, worker_threads: usize, miri: bool) {
     let mut b = ZoneBuilder::new(sname(APEX), Class::IN);
     for i in 0..NAMES.len() {
+        b.insert_rrset(&sname(&name_of(i)), anchor_rrset()).unwrap();
         b.insert_rrset(&sname(&name_of(i)), txt_rrset(0)).unwrap();
     }
     let sh = Arc::new(Shared {
